@@ -119,6 +119,12 @@ def same_py(a, b):
 def run(ctx, args):
     quick = ctx.tier == "quick"
     famprogs = optfamily.programs(3)
+    if quick:
+        # quick tier: all sequences of length <= 2, the copy chains, the whole second alphabet, and a seeded third of the 2744 sequences of length 3
+        import random
+        three = [x for x in famprogs if len(x[0].split("-")) == 3 and all(nm in optfamily.TEMPLATES for nm in x[0].split("-"))]
+        keep = set(id(x) for x in random.Random(ctx.seed).sample(three, len(three) // 3))
+        famprogs = [x for x in famprogs if x not in three or id(x) in keep]
     if not quick:
         # all sequences of length 4 would be 38 416 more programs x 2 levels x 3 inputs: a seeded sample of 5 000 of them
         import random
@@ -292,7 +298,7 @@ def run(ctx, args):
         raise common.Machinery("vacuous run: the optimiser changed no program")
     return common.finish(
         ctx, level="model_checking", evaluations=len(cases) * 2, distinct_nontrivial=nontrivial,
-        rule=f"{len(fam)} optimiser-family programs (all sequences of <= 3 of {len(optfamily.TEMPLATES)} statement templates{'' if quick else ' and a seeded sample of 5000 sequences of length 4'}, copy chains, and all sequences of <= 3 over a second alphabet of {len(optfamily.TEMPLATES2)} templates: aggregate copies followed by literal element stores, sibling blocks re-declaring a name) x 3 inputs and {n} seeded programs x 3 inputs; "
+        rule=f"{len(fam)} optimiser-family programs (all sequences of <= {'2' if quick else '3'} of {len(optfamily.TEMPLATES)} statement templates{' and a seeded third of the sequences of length 3' if quick else ' and a seeded sample of 5000 sequences of length 4'}, copy chains, and all sequences of <= 3 over a second alphabet of {len(optfamily.TEMPLATES2)} templates: aggregate copies followed by literal element stores, sibling blocks re-declaring a name) x 3 inputs and {n} seeded programs x 3 inputs; "
              "each compiled with optimize False and True: accept/reject compared, both modules run on the VM (value, globals, failures compared), both compared "
              "with NslSem's prescription (TLC), both IR modules checked by IRWellFormed over all paths; "
              f"{irm['cases']} runs of optimised modules ({irm['events']} instruction events) validated against spec/IRMachine.tla, and the same programs executed by IRMachine itself at both levels "
